@@ -77,6 +77,9 @@ NOTES = {  # seed -> (after, what was strengthened)
  "C10f_m2": ("caught (C10 oracle)", "operations whose query parameters are ALL required, a nullable one given None"),
  "C11f_m1": ("caught (C11 mypy)", "mypy on the builtin-names document (every builtin as a property next to union properties, whose decoders annotate `data: object`)"),
  "C11f_m2": ("caught (C11 mypy; C01 name resolution)", "mypy documents chosen by label (leaves, models, unions, triples, allof incl. the enum-redefining child)"),
+ "C09f_m1": ("caught (C09 correspondence + oracle)", "Scopes.model_params2: the two add_parameters calls of one operation (model_params2_distinct_quiet, model_params2_keys); ~700 splits of parameters between the path-item and the operation list"),
+ "C19f_m1": ("caught (C19 oracle)", "user files named like the files OTHER metadata flavours generate (setup.py in a poetry project ...), hidden files; a fixed history with a user file at every listed path"),
+ "C19f_m2": ("caught (C19 oracle)", "--output-path in every spelling the OS accepts (./, trailing slash, a/../b, through a symlinked directory, symlink + ..): everything lands where the OS resolves the path"),
  "C19c_m1": ("caught (C19 oracle + hook_cwd correspondence)", "post hooks: a marker hook that rewrites *.py below its working directory, all four flavours, with sentinel files around the output directory; Fs.hook_cwd"),
  "C10_m1": ("caught (C10 oracle, C02 correspondence)", "falsy-but-present values (0, \"\", false, {}, []) in the C02 atlas and the C10 grid"),
  "C10_m2": ("caught (C10 oracle; C15 caught it at once)", "allOf-refined required properties in the C10 grid"),
